@@ -459,6 +459,14 @@ def judge (caseLines : List String) (trace : List String) : List String :=
           let s := (blk ++ after.take 1).foldl (fun s l => (traceLine s 0 l).1) s
           let s := if after.isEmpty then s.flag s!"reload-did-not-finish {top}" else s
           go rest (after.drop 1) s fuel
+        | ["badload", name] =>
+          -- the error report of the master and the harness line
+          match tr with
+          | l :: e :: b :: tr' =>
+            if l == s!"lb {name}.c stale" && e.startsWith "err *Error in loading object" && b == s!"badload {name} failed"
+            then go rest tr' s fuel
+            else go rest tr' (s.flag s!"badload-unexpected {b}") fuel
+          | _ => go rest [] (s.flag "badload-without-output") fuel
         | "restart" :: _ =>
           match tr with
           | l :: tr' => go rest tr' (traceLine s 0 l).1 fuel
